@@ -25,6 +25,35 @@ def nats : Except FErr (List Nat) → String
   | .ok l => encNats l
   | .error e => errName e
 
+def encItem : Item → String
+  | .none => "-"
+  | .line i => "#" ++ toString i
+  | .str s => encStr s
+
+def encCell (c : Cell) : String :=
+  (if c.isTuple then "T" else "L") ++ ",".intercalate (c.items.map encItem)
+
+def encMatrix (m : List (List Cell)) : String :=
+  ";".intercalate (m.map (fun row => ":".intercalate (row.map encCell)))
+
+/-- `x` no match, else `g` + the groups separated by `,` (`-` = did not participate) -/
+def decGroups (w : List Char) : Option Groups :=
+  match w with
+  | ['x'] => some none
+  | 'g' :: rest =>
+    if rest.isEmpty then some (some [])
+    else ((splitOn ',' rest).mapM (fun it =>
+      if it == ['-'] then some (none : Option Str) else (decStr (String.ofList it)).map some)).map some
+  | _ => none
+
+/-- per expression `G` + the lines separated by `;`; expressions separated by one blank -/
+def decGroupTable (w : String) : Option GroupTable :=
+  if w == "-" then some [] else
+  (splitOn ' ' w.toList).mapM (fun e =>
+    match e with
+    | 'G' :: rest => if rest.isEmpty then some [] else (splitOn ';' rest).mapM decGroups
+    | _ => none)
+
 def answer (t : T) (op : String) (f : First) (c : Arg) (p1 : Option Row) (o : Opts) : String :=
   let rowsOf : First → List Row
     | .one a => [a.row]
@@ -62,6 +91,12 @@ def answer (t : T) (op : String) (f : First) (c : Arg) (p1 : Option Row) (o : Op
      | _ => "bad-op")
   | _ => "bad-op"
 
+def handleGroups (t : T) (fl : String) (rs : List Row) (g : GroupTable) : String :=
+  let has (c : Char) : Bool := fl.toList.contains c
+  match findObjectBranchesGroups t rs g (has 'e') (has 'r') (has 'u') with
+  | .ok m => encMatrix m
+  | .error e => errName e
+
 /-- `searchf <ios> <delims> <ignore_blank> <lines> <op> <flags> <first> <child> <rows> <p1> <lnum> <ltext>`
 
 * flags: `a` exactmatch `w` ignore_ws `x` escape_chars `r` reverse `c` recurse/all_children
@@ -72,8 +107,22 @@ def answer (t : T) (op : String) (f : First) (c : Arg) (p1 : Option Row) (o : Op
 * p1: the row of the second character of the first expression (F07) or `-`;
 * lnum, ltext: `linenum` and `text` of the `BaseCfgLine` arguments of `first`.
 
-The answer has the format of the `search` channel. -/
+The answer has the format of the `search` channel.
+
+`searchf <ios> <delims> <ignore_blank> <lines> brg <flags> <rows> <groups>` is
+`find_object_branches(regex_groups=True)`: groups = per expression `G` + one entry per line (`;`),
+`x` = no match, `g` + the capture groups (`,`; `-` = group did not participate). -/
 def handle : List String → String
+  | [ios, delims, ign, lines, "brg", fl, rows, groups] =>
+    match decStr delims, decStrs lines, Search.decRows rows, decGroupTable groups with
+    | some ds, some ls, some rs, some g =>
+      let cfg : Cfg := { ios := ios == "1", delims := ds, ignoreBlank := ign == "1" }
+      let t := parse cfg ls
+      if rs.any (fun r => r.length != t.size) || g.length != rs.length || g.any (fun l => l.length != t.size) then "bad-rows"
+      else
+        encNats t.parents ++ "|" ++ Search.natLists ((List.range t.size).map (children t)) ++ "&"
+          ++ handleGroups t fl rs g
+    | _, _, _, _ => "bad-request"
   | [ios, delims, ign, lines, op, fl, first, child, rows, p1, lnum, ltext] =>
     match decStr delims, decStrs lines, Search.decRows rows, decNat lnum, decStr ltext with
     | some ds, some ls, some rs, some ln, some lt =>
